@@ -67,8 +67,19 @@ variant=$(variant_of $ID $TIER)
 bin=$(build $id $variant) || { echo "$bin"; exit 2; }
 export VERIF_SEED=${VERIF_SEED:-1}
 export GOMEMLIMIT=${GOMEMLIMIT:-24GiB}
+rc_pre=0
+# C01 thorough: first a pass of the quick-size case list under the race detector (which implies checkptr);
+# its evidence goes to a side directory, its VIOLATION lines and exit status count
+if [ "$ID" = C01 ] && [ "$TIER" = thorough ]; then
+  rbin=$(build $id race) || { echo "$rbin"; exit 2; }
+  side=${VERIF_STATE_DIR:-/verif}/out/C01/race-pass
+  mkdir -p $side
+  VERIF_C01_RACE=1 VERIF_STATE_DIR=$side ./$rbin $TIER | sed 's/^SUMMARY/SUMMARY(race-pass)/; s/^COUNTERS/COUNTERS(race-pass)/'
+  rc_pre=${PIPESTATUS[0]}
+fi
 ./$bin $TIER
 rc=$?
+[ $rc -eq 0 ] && rc=$rc_pre
 # C04 thorough: repeat the churn workload under AddressSanitizer (reports are process-fatal)
 if [ "$ID" = C04 ] && [ "$TIER" = thorough ] && [ $rc -eq 0 ]; then
   abin=$(build $id asan) || { echo "$abin"; exit 2; }
